@@ -553,7 +553,7 @@ func (g *Gen) stmt(sc *scope, labs []lab, loopDepth int, inLoop bool, ind string
 		b := block(g.list(sc, 1+r.Intn(3), inner, loopDepth, inLoop, in2), in2)
 		return []node{{fmt.Sprintf("L%d: %s", id, b.js), fmt.Sprintf("(JLabelled %d%%nat %s)", id, b.coq)}}
 	case k < 69:
-		switch r.Intn(8) {
+		switch r.Intn(9) {
 		case 0:
 			// a call / new / method call whose callee value is not callable: the arguments are evaluated (their
 			// host calls happen, an exception they throw wins) BEFORE the TypeError (11.2.2, 11.2.3)
@@ -623,6 +623,9 @@ func (g *Gen) stmt(sc *scope, labs []lab, loopDepth int, inLoop bool, ind string
 			default:
 				return []node{{"log(SH3());", fmt.Sprintf("(JExpr (XLog (XCall (XVar %s) [])))", cstr("SH3"))}}
 			}
+		case 8:
+			g.Stats["ref-wrap"]++
+			return g.refWrapTemplate(sc)
 		case 5:
 			g.Stats["conv-order"]++
 			return g.convTemplate(sc)
@@ -1029,7 +1032,9 @@ func Generate(r *rand.Rand, budget int) Program {
 	if r.Intn(3) == 0 {
 		g.Stats["template-battery-r6"]++
 		for i, n := 0, 2+r.Intn(3); i < n; i++ {
-			switch r.Intn(3) {
+			switch r.Intn(4) {
+			case 3:
+				stmts = append(stmts, g.refWrapTemplate(top)...)
 			case 0:
 				stmts = append(stmts, g.convTemplate(top)...)
 			case 1:
@@ -1165,6 +1170,11 @@ func tryLog(body ...node) node {
 // host call log(tag) it makes, the shared variable it changes, or the exception it throws
 const nConvKinds = 11
 
+// with the string operands of + (11.6.1: both operands are made primitive, valueOf first, BEFORE the string test)
+const nConvKindsStr = 16
+
+func slit(t string) node { return node{strconv.Quote(t), "(XLit (WStr " + cstr(t) + "))"} }
+
 func convOperand(kind, tag, n int) node {
 	logT := sexpr(xlog(nlit(tag)))
 	logT1 := sexpr(xlog(nlit(tag + 1)))
@@ -1188,6 +1198,16 @@ func convOperand(kind, tag, n int) node {
 		return []node{xundef, xnull, {"true", "(XLit (WBool true))"}}[n%3]
 	case 9: // valueOf gives a primitive: toString must not be called
 		return xobj([]string{"valueOf", "toString"}, []node{xfun(nil, []node{logT, sret(nlit(n))}), xfun(nil, []node{logT1, sret(nlit(0))})})
+	case 11: // a primitive string
+		return slit([]string{"s", "", "n="}[n%3])
+	case 12: // valueOf and toString give different primitives: + with a string still asks valueOf
+		return xobj([]string{"valueOf", "toString"}, []node{xfun(nil, []node{logT, sret(nlit(n))}), xfun(nil, []node{logT1, sret(slit("x"))})})
+	case 13: // valueOf gives a string
+		return xobj([]string{"valueOf", "toString"}, []node{xfun(nil, []node{logT, sret(slit("v"))}), xfun(nil, []node{logT1, sret(nlit(n))})})
+	case 14: // only toString, giving a string
+		return xobj([]string{"toString"}, []node{xfun(nil, []node{logT, sret(slit("t"))})})
+	case 15: // a variable holding a string
+		return xvar("sv")
 	case 10: // valueOf gives undefined (a primitive): NaN
 		return xobj([]string{"valueOf"}, []node{xfun(nil, []node{logT, {"return;", "(JReturn None)"}})})
 	}
@@ -1220,7 +1240,18 @@ func (g *Gen) convTemplate(sc *scope) []node {
 	}
 	op := r.Intn(len(convOps))
 	compound := op >= 4 && r.Intn(3) == 0
-	return convStmt(op, kind(), kind(), r.Intn(4), r.Intn(4), compound, "cx")
+	ka, kb := kind(), kind()
+	if r.Intn(3) == 0 { // + / += with a string on one side and an object (or anything) on the other
+		op = 4
+		str := []int{11, 15, 13, 14}[r.Intn(4)]
+		other := []int{12, 12, 9, 3, 13, 14, 1, 8, 0}[r.Intn(9)]
+		if r.Intn(2) == 0 {
+			ka, kb = str, other
+		} else {
+			ka, kb = other, str
+		}
+	}
+	return convStmt(op, ka, kb, r.Intn(4), r.Intn(4), compound, "cx")
 }
 
 // a function whose parameter list repeats a name, called with nargs arguments by one of six routes (10.5 step 4.d: every
@@ -1306,8 +1337,112 @@ func r6Prologue() []node {
 	return []node{
 		{"var top = this;", "(JVar " + cstr("top") + " (Some XThis))"},
 		{"var ge = eval;", "(JVar " + cstr("ge") + " None)"}, // the model has no eval VALUE: every use of ge is rendered as an XEval/XEvalVia term
+		{"var sv = \"q\";", "(JVar " + cstr("sv") + " (Some " + slit("q").coq + "))"},
+		{"var loc = 1;", "(JVar " + cstr("loc") + " (Some (XLit (WNum 1))))"},
+		roDecl(),
 		{"var hold = { a: 5, g0: 55, run: eval };", fmt.Sprintf("(JVar %s (Some (XObj [(%s, XLit (WNum 5)); (%s, XLit (WNum 55))])))", cstr("hold"), cstr("a"), cstr("g0"))},
 	}
+}
+
+// the object whose members the reference-wrapping templates call, inspect and delete
+func roDecl() node {
+	probe := func(ret int) node {
+		return xfun(nil, []node{sexpr(xlog(node{"this === top", "(XBin PSeq XThis (XVar " + cstr("top") + "))"})), sexpr(xlog(xget(xthis, "tag"))), sret(nlit(ret))})
+	}
+	o := xobj([]string{"tag", "p", "q", "m", "n"}, []node{nlit(1), nlit(1), nlit(2), probe(7), probe(8)})
+	return node{"var ro = " + o.js + ";", "(JVar " + cstr("ro") + " (Some " + o.coq + "))"}
+}
+
+// an operator whose result is a VALUE (GetValue applied: 11.12, 11.11, 11.14) around an expression that is a Reference
+const nRefWraps = 6
+
+func refWrap(k int, e node) node {
+	switch k {
+	case 0:
+		return node{"(1 ? " + e.js + " : 0)", "(XCond (XLit (WNum 1)) " + e.coq + " (XLit (WNum 0)))"}
+	case 1:
+		return node{"(0 ? 0 : " + e.js + ")", "(XCond (XLit (WNum 0)) (XLit (WNum 0)) " + e.coq + ")"}
+	case 2:
+		return node{"(1 && " + e.js + ")", "(XAnd (XLit (WNum 1)) " + e.coq + ")"}
+	case 3:
+		return node{"(0 || " + e.js + ")", "(XOr (XLit (WNum 0)) " + e.coq + ")"}
+	case 4:
+		return node{"(0, " + e.js + ")", "(XComma (XLit (WNum 0)) " + e.coq + ")"}
+	}
+	in := refWrap(1, e)
+	return node{"(1 ? " + in.js + " : 0)", "(XCond (XLit (WNum 1)) " + in.coq + " (XLit (WNum 0)))"}
+}
+
+// c ? e : e with a test that is any expression
+func condBoth(t, e node) node {
+	return node{"(" + t.js + " ? " + e.js + " : " + e.js + ")", "(XCond " + t.coq + " " + e.coq + " " + e.coq + ")"}
+}
+
+const nRefUses = 11
+
+// the reference-sensitive consumers around w(e): a call (this value, 11.2.3), eval (direct or not, 15.1.2.1.1),
+// typeof of an unresolvable name (11.4.3), delete (11.4.1)
+func refUse(use int, w func(node) node) []node {
+	call := func(f node, as ...node) node {
+		return node{f.js + "(" + jsArgs(as) + ")", fmt.Sprintf("(XCall %s %s)", f.coq, clist(as))}
+	}
+	ro := xvar("ro")
+	switch use {
+	case 0:
+		return []node{sexpr(xlog(call(w(xget(ro, "m")))))}
+	case 1:
+		idx := node{"ro[\"n\"]", "(XIdx (XVar " + cstr("ro") + ") " + slit("n").coq + ")"}
+		return []node{sexpr(xlog(call(w(idx), xlog(nlit(3)))))}
+	case 2:
+		st := sexpr(xlog(call(w(xvar("m")))))
+		return []node{{"with (ro) { " + st.js + " }", fmt.Sprintf("(JWith (XVar %s) (JBlock [%s]))", cstr("ro"), st.coq)}}
+	case 3, 4: // an eval reached through a value is indirect: it does not see the caller's loc
+		body := []node{sexpr(xvar("loc"))}
+		if use == 4 {
+			body = append(thisProbes(0), body...)
+		}
+		var src strings.Builder
+		for _, n := range body {
+			src.WriteString(n.js + "\n")
+		}
+		// the model has no eval VALUE: the wrapper is evaluated around a literal (its test may have effects), then the eval
+		ev := w(node{"eval", "(XLit (WNum 0))"})
+		e := node{ev.js + "(" + strconv.Quote(src.String()) + ")", "(XComma " + ev.coq + " (XEval false " + clist(body) + "))"}
+		f := xfun(nil, []node{{"var loc = 2;", "(JVar " + cstr("loc") + " (Some (XLit (WNum 2))))"}, sret(e)})
+		f.js = "(" + f.js + ")"
+		if use == 4 {
+			return []node{sexpr(xlog(node{f.js + ".call(ro)", fmt.Sprintf("(XMCall %s %s [XVar %s])", f.coq, cstr("call"), cstr("ro"))}))}
+		}
+		return []node{sexpr(xlog(call(f)))}
+	case 5:
+		return []node{tryLog(node{"log(typeof " + w(xvar("nowhere")).js + ");", "(JExpr (XLog (XTypeof " + w(xvar("nowhere")).coq + ")))"})}
+	case 6:
+		return []node{{"log(typeof " + w(xvar("loc")).js + ");", "(JExpr (XLog (XTypeof " + w(xvar("loc")).coq + ")))"},
+			{"log(typeof " + w(xget(ro, "m")).js + ");", "(JExpr (XLog (XTypeof " + w(xget(ro, "m")).coq + ")))"}}
+	case 7: // delete of a value deletes nothing and gives true
+		e := w(xget(ro, "p"))
+		return []node{sexpr(xlog(node{"delete " + e.js, "(XComma " + e.coq + " (XLit (WBool true)))"})), sexpr(xlog(xget(ro, "p")))}
+	case 8:
+		e := w(xvar("loc"))
+		return []node{sexpr(xlog(node{"delete " + e.js, "(XComma " + e.coq + " (XLit (WBool true)))"}))}
+	case 9: // delete unresolvable gives true, delete of its VALUE throws
+		e := w(xvar("nowhere2"))
+		return []node{tryLog(sexpr(xlog(node{"delete " + e.js, "(XComma " + e.coq + " (XLit (WBool true)))"})))}
+	}
+	// new: the constructor never receives the base as this anyway; the value form must behave alike
+	e := w(xget(ro, "m"))
+	return []node{{"log(typeof new " + e.js + "());", "(JExpr (XLog (XTypeof (XNew " + e.coq + " []))))"}}
+}
+
+func (g *Gen) refWrapTemplate(sc *scope) []node {
+	r := g.R
+	k := r.Intn(nRefWraps + 2)
+	w := func(e node) node { return refWrap(k, e) }
+	if k >= nRefWraps {
+		t := g.num(sc, 1)
+		w = func(e node) node { return condBoth(t, e) }
+	}
+	return refUse(r.Intn(nRefUses), w)
 }
 
 // statements for eval code that show what its `this` is
@@ -1415,16 +1550,24 @@ func Pinned() []Program {
 	var all [][]node
 	// conversions
 	for op := range convOps {
-		for ka := 0; ka < nConvKinds; ka++ {
-			for kb := 0; kb < nConvKinds; kb++ {
+		nk := nConvKinds
+		if op == 4 {
+			nk = nConvKindsStr
+		}
+		for ka := 0; ka < nk; ka++ {
+			for kb := 0; kb < nk; kb++ {
 				all = append(all, convStmt(op, ka, kb, 1+(ka+kb)%3, 2, false, ""))
 			}
 		}
 	}
 	for op := 4; op < len(convOps); op++ {
 		i := 0
-		for ka := 0; ka < nConvKinds; ka++ {
-			for kb := 0; kb < nConvKinds; kb++ {
+		nk := nConvKinds
+		if op == 4 {
+			nk = nConvKindsStr
+		}
+		for ka := 0; ka < nk; ka++ {
+			for kb := 0; kb < nk; kb++ {
 				all = append(all, convStmt(op, ka, kb, 1+(ka+kb)%3, 2, true, fmt.Sprintf("cx%d", i%40)))
 				i++
 			}
@@ -1465,6 +1608,26 @@ func Pinned() []Program {
 			}
 		}
 	}
+	// GetValue in the conditional / logical / comma operators: every wrapper around every reference-sensitive consumer
+	for k := 0; k < nRefWraps+2; k++ {
+		k := k
+		w := func(e node) node { return refWrap(k, e) }
+		if k == nRefWraps {
+			w = func(e node) node { return condBoth(xvar("g0"), e) }
+		} else if k == nRefWraps+1 {
+			w = func(e node) node { return condBoth(xvar("g1"), e) }
+		}
+		for use := 0; use < nRefUses; use++ {
+			all = append(all, refUse(use, w))
+		}
+	}
+	// the same consumers on the bare (parenthesised) reference: this = ro, direct eval, "undefined", a real delete
+	all = append(all,
+		[]node{sexpr(xlog(node{"(ro.m)()", fmt.Sprintf("(XMCall (XVar %s) %s [])", cstr("ro"), cstr("m"))}))},
+		[]node{{"log(typeof (nowhere));", "(JExpr (XLog (XTypeof (XVar " + cstr("nowhere") + "))))"}},
+		[]node{{"log(delete (ro.q));", fmt.Sprintf("(JExpr (XLog (XDelete (XVar %s) %s)))", cstr("ro"), cstr("q"))}, sexpr(xlog(xget(xvar("ro"), "q")))},
+		[]node{sexpr(xlog(node{"(function () { var loc = 2; return (eval)(\"loc;\"); })()",
+			fmt.Sprintf("(XCall (XFun [] [JVar %s (Some (XLit (WNum 2))); JReturn (Some (XEval true [JExpr (XVar %s)]))]) [])", cstr("loc"), cstr("loc"))}))})
 	// a primitive this value is boxed afresh for every call (10.4.3), also through bind/call/apply
 	pt := xvar("PT")
 	mc := func(o node, m string, as ...node) node {
